@@ -538,6 +538,92 @@ fn history_case(i: u64, p: &Params, rep: &mut Report) {
     }
 }
 
+/// Function types and function values. The independent membership oracle has no notion of a function
+/// value, so membership is the library's own `contains` here (as the property words it: "if the library
+/// says A is a subset of B and v is in A then v is in B").
+fn function_case(i: u64, p: &Params, rep: &mut Report) {
+    use qrlew::data_type::function as f;
+    let mut r = p.rng(i ^ 0xF0_0000_0000);
+    let values: Vec<(&str, Value)> = vec![
+        ("ln", Value::function(f::ln())),
+        ("exp", Value::function(f::exp())),
+        ("sqrt", Value::function(f::sqrt())),
+        ("abs", Value::function(f::abs())),
+        ("sin", Value::function(f::sin())),
+        ("lower", Value::function(f::lower())),
+        ("char_length", Value::function(f::char_length())),
+        ("md5", Value::function(f::md5())),
+    ];
+    let (vname_, v) = r.pick(&values).clone();
+    let (vd, vc) = match &v {
+        Value::Function(fv) => ((**fv).domain(), (**fv).co_domain()),
+        _ => return,
+    };
+    // domains / co-domains around the value's own: narrower, equal, wider
+    let around = |r: &mut Rng, t: &DataType| -> DataType {
+        match r.below(6) {
+            0 => t.clone(),
+            1 => DataType::Any,
+            2 => match t {
+                DataType::Float(_) => DataType::float(),
+                DataType::Integer(_) => DataType::integer(),
+                DataType::Text(_) => DataType::text(),
+                t => t.clone(),
+            },
+            3 => match t {
+                DataType::Float(_) => DataType::float_interval(1.0, 1.0 + r.range(0, 20) as f64),
+                DataType::Integer(_) => DataType::integer_interval(0, r.range(0, 20)),
+                DataType::Text(_) => DataType::text_values(["a".to_string(), "b".to_string()]),
+                t => t.clone(),
+            },
+            4 => match t {
+                DataType::Float(_) => DataType::float_min(0.0),
+                DataType::Integer(_) => DataType::integer_min(0),
+                t => t.clone(),
+            },
+            // same variant only: cross-variant inclusions (text vs bytes, ...) are judged by the lattice cases
+            _ => match t {
+                DataType::Float(_) => DataType::float_interval(-(r.range(0, 5) as f64), r.range(0, 50) as f64),
+                DataType::Integer(_) => DataType::integer_interval(-r.range(0, 5), r.range(0, 50)),
+                t => t.clone(),
+            },
+        }
+    };
+    let a = DataType::function(around(&mut r, &vd), around(&mut r, &vc));
+    let b = DataType::function(around(&mut r, &vd), around(&mut r, &vc));
+    let case = || json!({"A": a.to_string(), "B": b.to_string(), "function_value": vname_, "value_domain": vd.to_string(), "value_co_domain": vc.to_string()});
+    let in_a = a.contains(&v);
+    let in_b = b.contains(&v);
+    rep.eval();
+    rep.count("function_types_checked");
+    if in_a || in_b {
+        rep.nontrivial(hash64(&(a.to_string(), b.to_string(), vname_)));
+    }
+    if a.is_subset_of(&b) {
+        rep.count("function_subset_true");
+        if in_a && !in_b {
+            rep.violation("C11|function|subset-but-member-lost".to_string(), format!("{} ⊆ {} and {} ∈ A but ∉ B", a, b, vname_), case());
+            return;
+        }
+    }
+    if let Ok(u) = a.super_union(&b) {
+        if (in_a || in_b) && !u.contains(&v) {
+            rep.violation("C11|function|union-loses-member".to_string(), format!("{} ∈ A or B but ∉ {}", vname_, u), case());
+            return;
+        }
+    }
+    if let Ok(x) = a.super_intersection(&b) {
+        if in_a && in_b && !x.contains(&v) {
+            rep.violation("C11|function|intersection-loses-common-member".to_string(), format!("{} ∈ A and B but ∉ {}", vname_, x), case());
+            return;
+        }
+    }
+    let own = v.data_type();
+    if !own.contains(&v) {
+        rep.violation("C11|function|own-type-does-not-contain-the-value".to_string(), format!("{} ∉ {}", vname_, own), case());
+    }
+}
+
 pub fn run(p: &Params) -> Report {
     let mut rep = Report::for_params("C11", p);
     let n = p.cases;
@@ -548,6 +634,8 @@ pub fn run(p: &Params) -> Report {
         &|i, rep| {
             if i % 8 == 7 {
                 history_case(i, &pp, rep)
+            } else if i % 8 == 3 {
+                function_case(i, &pp, rep)
             } else {
                 lattice_case(i, &pp, rep)
             }
